@@ -3,7 +3,7 @@
 R1 capable/enabled/InitOut provenance in Server::init
 R2 extended marker: flags2 is only meaningful together with INIT_EXT in flags
 R3 reply layout by minor version, major mismatch arms
-R4 write-size limits fit the transport buffers (constant relations)
+R4 write-size limits fit the transport buffers (constant relations); R7 (shared with C02) the dispatcher's oversize refusal leaves room for a maximal WRITE
 R5 feature toggles of Vfs / PassthroughFs / OverlayFs are switched on only under the negotiated flag
 R6 Vfs::init refuses a second INIT and publishes `initialized` after the backends
 """
@@ -40,6 +40,8 @@ def run(ctx):
         ctx.run_rule("R1-negotiation", r1_negotiation, F, table)
         ctx.run_rule("R3-layout", r3_layout, F, table)
         ctx.run_rule("R4-write-limits", r4_limits, F, table)
+        from rules import c02
+        ctx.run_rule("R7-oversize-gate", c02.r7_oversize, F)    # the dispatcher accepts what max_write promised
         ctx.run_rule("R5-toggles", r5_toggles, F, table)
         ctx.run_rule("R6-reinit", r6_reinit, F, table)
     finally:
@@ -58,11 +60,27 @@ def init_env(F):
     roots.append((vf.field(("V", e, "Ok"), "0", 0), "want"))
     roots.append((("F", vf.field(("V", e, "Ok"), "0", 0), "bits"), "want"))
     named = {}
-    for n in ("capable", "enabled", "enabled_flags", "readahead"):
-        x = vf.def_value(v, b, n)
-        if x is None:
-            raise core.Anchor("variable %s in Server::init" % n)
-        named[n] = x
+    # `capable` is what the filesystem is offered, whatever the local is called
+    named["capable"] = v.call_args(fsc[0])[1]
+    # the reply may be composed in a private helper: analyse it in the caller's frame (its parameters bound to the caller's arguments)
+    frames = [(b, v)]
+    for c in live_calls(b):
+        callee = F.fns.get(c.res or c.fn or "")
+        if callee is not None and callee.kind in ("fn", "assoc") and "InitOut" in callee.local_ty(0) and not c.trait:
+            args = v.call_args(c)
+            frames.append((callee, vf.VF(callee, params={i + 1: a for i, a in enumerate(args)})))
+    for n in ("enabled", "enabled_flags", "readahead"):
+        for (fb, fv) in frames:
+            try:
+                x = vf.def_value(fv, fb, n)
+            except Exception:
+                x = None
+            if x is not None:
+                named[n] = x
+                break
+        if n not in named and n == "enabled":
+            raise core.Anchor("variable enabled in Server::init (or the helper composing InitOut)")
+    init_env.frames = frames
     return b, v, roots, named, fsc[0]
 
 
@@ -86,7 +104,9 @@ def r1_negotiation(ctx, F, table):
     a = v.call_args(fsc)
     ctx.check("R1-negotiation", "fs-init-arg", a[1] == named["capable"], "Server::init: the filesystem is not offered the client's capability word", loc=fsc.loc())
     en_bits = vf.field(named["enabled"], "bits", 0)
-    r3 = r2 + [(named["enabled"], "enabled"), (en_bits, "enabled"), (named["enabled_flags"], "enabled"), (named["readahead"], "readahead")]
+    r3 = r2 + [(named["enabled"], "enabled"), (en_bits, "enabled")]
+    if "enabled_flags" in named:
+        r3.append((named["enabled_flags"], "enabled"))
     # final InitOut at the full-size reply
     full = None
     for c in live_calls(b):
@@ -99,12 +119,20 @@ def r1_negotiation(ctx, F, table):
         raise core.Anchor("full-size INIT reply site")
     c, a = full
     out = a[3][0][1] if a[0] == "A" and a[2] == "Some" else a
+    vfx = {fb.key: fv for (fb, fv) in init_env.frames}
+    rb = b
+    out0 = vf.strip_upd(out)
+    if out0[0] == "C" and out0[1] in F.fns:
+        for (fb, fv) in init_env.frames[1:]:
+            if fb.key == out0[1]:
+                out = fv.ret()
+                rb = fb
     vf.NOCAST[0] = True
     try:
         got = {}
         for fld in exp["init_out"]:
             x = vf.field(out, fld)
-            got[fld] = vf.render(x, b, r3, short=True, vfx=v)
+            got[fld] = vf.render(x, rb, r3, short=True, vfx=vfx)
     finally:
         vf.NOCAST[0] = False
     if os.environ.get("FBR_GEN"):
@@ -301,7 +329,7 @@ META = {
     "technique": "MIR value-flow of the negotiation arithmetic and reply fields vs. frozen table; dominance of capability tests over toggle stores; constant relations",
     "text": "Decides: capable is built from flags (and flags2 only under INIT_EXT with payload); enabled = capable & want; every InitOut field incl. the "
             "INIT_EXT marker that makes flags2 effective; reply size arms per minor version and the major-mismatch arms; max_write constants fit "
-            "the buffer limits; every backend toggle store(true) is dominated by the negotiated flag and offered in the returned options; Vfs "
+            "the buffer limits and the dispatcher's oversize refusal leaves room for a maximal WRITE (shared with C02.R7); every backend toggle store(true) is dominated by the negotiated flag and offered in the returned options; Vfs "
             "stores/returns exactly the option algebra of the table, refuses re-INIT and publishes initialised last.",
     "note": "Flag values are tied to the kernel in C13. Not decided: later behaviour of each toggle; page sizes other than 4 KiB.",
 }
